@@ -562,6 +562,9 @@ func c15AttrTables(d *dialectAPI, r *hx.Rand) []*schema.Table {
 				t2.AddIndexes(schema.NewIndex(fmt.Sprintf("i_nulls_%v_%d", desc, k)).AddParts(p1, p2))
 			}
 		}
+		// an operator class with two parameters, and one with a single parameter
+		t2.AddIndexes(schema.NewIndex("i_opclass_params").AddAttrs(&postgres.IndexType{T: "BRIN"}).AddParts(&schema.IndexPart{C: c, Attrs: []schema.Attr{&postgres.IndexOpClass{Name: "int4_bloom_ops", Params: []struct{ N, V string }{{"n_distinct_per_range", "100"}, {"false_positive_rate", "0.05"}}}}}))
+		t2.AddIndexes(schema.NewIndex("i_opclass_param").AddAttrs(&postgres.IndexType{T: "GIST"}).AddParts(&schema.IndexPart{C: b, Attrs: []schema.Attr{&postgres.IndexOpClass{Name: "gist_trgm_ops", Params: []struct{ N, V string }{{"siglen", "32"}}}}}))
 		t2.AddIndexes(schema.NewIndex("i_opclass").AddParts(&schema.IndexPart{C: b, Attrs: []schema.Attr{&postgres.IndexOpClass{Name: "text_pattern_ops"}}}))
 	default:
 		t2.AddIndexes(schema.NewIndex("i_partial").AddColumns(c).AddAttrs(&sqlite.IndexPredicate{P: "c > 0"}))
